@@ -244,6 +244,7 @@ func gen(f *Family, tier string, seed uint64, out string, scale int, bias, corpu
 	sum := map[string]any{
 		"family": f.Name, "tier": tier, "seed": seed, "evaluations": n, "distinct": len(seen),
 		"distinct_nontrivial": distinctNT, "tags": tagCount, "sources": srcCount, "samples": samples, "rule": f.Rule,
+		"methods": methodSets(),
 	}
 	b, _ := json.MarshalIndent(sum, "", " ")
 	return os.WriteFile(filepath.Join(out, "summary.json"), b, 0o644)
@@ -301,7 +302,7 @@ func coqBytes(s string) string {
 	}
 	var parts []string
 	for _, c := range []byte(s) {
-		parts = append(parts, fmt.Sprintf("%d", c))
+		parts = append(parts, fmt.Sprintf("%d%%N", c))
 	}
 	return "(L [" + strings.Join(parts, ";") + "])"
 }
